@@ -15,11 +15,62 @@
 struct NullOut
 {
   std::size_t bytes = 0;
-  NullOut& write(const char*, std::streamsize n) { bytes += std::size_t(n); return *this; }
+  unsigned sum = 0;
+  // the output stream READS every byte it is given (as a file or socket would): the consumer's reads of the queue bytes
+  // are what the producer's next lap must be ordered after
+  NullOut& write(const char* p, std::streamsize n)
+  {
+    for (std::streamsize i = 0; i < n; ++i) { sum += static_cast<unsigned char>(p[i]); }
+    bytes += std::size_t(n);
+    return *this;
+  }
 };
+
+// Lap mode: ONE writer with a small queue and a consumer, in lock step through a RELAXED atomic phase counter (it fixes the
+// real-time order of the phases and adds no happens-before edge).  In every phase the writer logs a few small events, then
+// the consumer either consumes or skips (lags).  Over many phases the queue wraps again and again with the consumer at every
+// possible distance behind: every byte of the queue is read by the consumer in one lap and written by the producer in the
+// next, and only the acquire/release pairs on the queue indices order the two.
+static int lap_mode(unsigned seed, int phases)
+{
+  binlog::Session session;
+  std::mt19937 rng(seed * 7919u + 13u);
+  const std::size_t cap = std::size_t(60 + 20 * (rng() % 8));
+  binlog::SessionWriter writer(session, cap);
+  std::atomic<int> phase{0};       // even: the writer's turn, odd: the consumer's
+  std::size_t logged = 0, consumed = 0;
+  std::thread consumer([&]()
+  {
+    std::mt19937 crng(seed * 104729u + 7u);
+    NullOut out;
+    for (int p = 1; p < 2 * phases; p += 2)
+    {
+      while (phase.load(std::memory_order_relaxed) != p) { std::this_thread::yield(); }
+      if (crng() % 4 != 0) { session.consume(out); }
+      phase.store(p + 1, std::memory_order_relaxed);
+    }
+    session.consume(out);
+    consumed = out.bytes;
+  });
+  for (int p = 0; p < 2 * phases; p += 2)
+  {
+    while (phase.load(std::memory_order_relaxed) != p) { std::this_thread::yield(); }
+    const unsigned k = 1 + rng() % 3;
+    for (unsigned i = 0; i < k; ++i)
+    {
+      if (rng() % 3 == 0) { BINLOG_INFO_W(writer, "lap {}", int(i)); } else { BINLOG_INFO_W(writer, "lap"); }
+      ++logged;
+    }
+    phase.store(p + 1, std::memory_order_relaxed);
+  }
+  consumer.join();
+  std::cout << "done logged=" << logged << " consumed=" << consumed << "\n";
+  return 0;
+}
 
 int main(int argc, char** argv)
 {
+  if (argc > 4 && std::string(argv[4]) == "lap") { return lap_mode(unsigned(std::atoi(argv[1])), std::atoi(argv[3])); }
   const unsigned seed = argc > 1 ? unsigned(std::atoi(argv[1])) : 1;
   const int writers = argc > 2 ? std::atoi(argv[2]) : 4;
   const int iters = argc > 3 ? std::atoi(argv[3]) : 1500;
